@@ -121,6 +121,34 @@ def run(chk):
                 if cnl["steps"] != 2:
                     chk.fail("no iteration limit, threshold above every relative change: expected to stop at iteration 2, stopped at %d" % cnl["steps"],
                              dict(ctx, threshold=th, cvs=ctraj["cvs"]))
+    # ---- other storage types of the training values (single precision with a common offset, narrow integers): training sees the VALUES;
+    #      the run is the same as on the float64 copy, and in particular every iteration still raises the likelihood
+    for j in range(8 if chk.tier == "quick" else 64):
+        sw = (bool(j % 2), True, bool((j // 2) % 2))
+        w, mu, var, s, X = gt.gen_training(r, C=2, N=14)
+        C, D = mu.shape
+        dt = [np.float32, np.int16, np.uint8, np.int32][j % 4]
+        if dt is np.float32:
+            kq, off = 1.0 / float(s.max()), 1.0e4
+        else:
+            hi = {np.int16: 3.0e4, np.uint8: 250.0, np.int32: 6.0e4}[dt]
+            kq, off = 0.35 * hi / float(np.abs(X - X.mean(axis=0)).max() + 1e-300), 0.5 * hi
+        Xq = (X * kq + (off - (X * kq).mean(axis=0)))
+        Xq = Xq.astype(np.float32) if dt is np.float32 else np.clip(np.rint(Xq), 0 if dt is np.uint8 else -hi, hi).astype(dt)
+        X64 = Xq.astype(np.float64)
+        mu_q = mu * kq + (off - (X * kq).mean(axis=0))
+        cfgq = dict(w=w, mu=mu_q, var=var * kq * kq, thr=None, sw=sw, eps=eps, cap=3, cthr=None)
+        ma, _ = gt.build_machine(cfgq)
+        mb, _ = gt.build_machine(cfgq)
+        na, La, _ = gt.run_fit(ma, Xq)
+        nb, Lb, _ = gt.run_fit(mb, X64)
+        chk.count(1, key=("dtype", np.dtype(dt).name, sw))
+        ctxq = {"dtype": np.dtype(dt).name, "X": hexlist(X64), "shape": [C, D], "w": hexlist(w), "mu": hexlist(mu_q), "var": hexlist(var * kq * kq),
+                "switches(means,vars,weights)": list(sw), "reported": [La, Lb]}
+        if not (na == nb and np.allclose(La, Lb, rtol=1e-9, atol=1e-9) and np.allclose(ma.means, mb.means, rtol=1e-9, atol=1e-9 * off)
+                and np.allclose(ma.variances, mb.variances, rtol=1e-7, atol=1e-12)):
+            chk.fail("ML training on %s data differs from training on the float64 copy of the same values (reported log-likelihoods %s vs %s)"
+                     % (np.dtype(dt).name, La, Lb), ctxq)
     bad, info = cq.run_cases("C03", gt.IMPORTS, "fit_case", "fit_check", terms, shard=60)
     chk.correspondence("GMMMachine.fit (ML; all 8 switch settings; NumPy and Dask chunks; caps and placed thresholds) ~ MF.fit",
                        len(terms), bad, info)
